@@ -26,7 +26,9 @@ def do_mean(pixels, z_pixels, num_zones, nodata, z_nodata, out_dtype=np.float32)
         out_dtype: datatype
     """
     t, nr, nc = pixels.shape
-    result = np.zeros((t, num_zones, 2), dtype=out_dtype)
+    # accumulate in float64: a float32 sum / counter stops being exact
+    # beyond 2**24 pixels per zone; cast to out_dtype once at the end
+    result = np.zeros((t, num_zones, 2), dtype=np.float64)
 
     # 0 mean
     # 1 valids
@@ -46,4 +48,4 @@ def do_mean(pixels, z_pixels, num_zones, nodata, z_nodata, out_dtype=np.float32)
             else:
                 result[tix, idx, 0] = np.nan
 
-    return result
+    return result.astype(out_dtype)
